@@ -213,6 +213,12 @@ def check_real_value(ctx, pms, fmt, rng, workdir):
     D = c06.suitable_description(fmt, slot, rng)
     if D is None:
         return
+    if fmt == "images" and rng.random() < 0.5:
+        # several Image objects sharing one path (a unified ISO listed per variant): any of them may be the invalid one
+        D2 = formats.gen("images", rng, "same-path-other-cell")
+        if D2["images"]:
+            D = D2
+            ctx.count("real-invalid-value-among-same-path-images")
     order_seed = rng.randrange(1 << 30)
     obj = formats.build(pms, fmt, D, order_seed)
     for name in os.listdir(workdir):
